@@ -341,12 +341,7 @@ func runNumeric(o Opts) error {
 	tokensOf := func(v int64) [][]byte {
 		f := bluge.NewNumericField("f", numeric.Int64ToFloat64(v))
 		f.Analyze(0)
-		var out [][]byte
-		for _, tf := range f.AnalyzedTokenFrequencies() {
-			out = append(out, append([]byte{}, tf.TermVal...))
-		}
-		sort.Slice(out, func(i, j int) bool { return bytes.Compare(out[i], out[j]) < 0 })
-		return out
+		return sortedTerms(f)
 	}
 	tokVals := append(append([]int64{}, ints[:]...), randInts[:40]...)
 	for i, v := range tokVals {
@@ -551,6 +546,68 @@ func numericE2E(o Opts, rng *rand.Rand, w *cq.Writer, floats []float64) error {
 		if err != nil {
 			return err
 		}
+		// numeric sorting: a match-all search sorted on the field returns the documents in the
+		// float order (-0 below +0), ascending / descending
+		for _, desc := range []bool{false, true} {
+			order := "n"
+			if desc {
+				order = "-n"
+			}
+			var seq []uint64
+			var serr error
+			fin, pan := cq.Guard(20*time.Second, func() {
+				it, err := rd.Search(context.Background(), bluge.NewTopNSearch(n, bluge.NewMatchAllQuery()).SortBy([]string{order}))
+				if err != nil {
+					serr = fmt.Errorf("sorted search: %w", err)
+					return
+				}
+				m, err := it.Next()
+				for err == nil && m != nil {
+					var id string
+					m.VisitStoredFields(func(field string, value []byte) bool {
+						if field == "_id" {
+							id = string(value)
+						}
+						return true
+					})
+					var k int
+					fmt.Sscanf(id, "%d", &k)
+					seq = append(seq, math.Float64bits(vals[k]))
+					m, err = it.Next()
+				}
+				serr = err
+			})
+			if !fin {
+				w.Abort("sort-hang", "sorted match-all search did not return within 20s", order)
+			}
+			if pan != nil {
+				w.OracleFail("sort-panic", fmt.Sprint(pan), order)
+				continue
+			}
+			if serr != nil {
+				return serr
+			}
+			w.OracleEval(1)
+			if len(seq) != n {
+				w.OracleFail("sort-count", fmt.Sprintf("sorted match-all returned %d of %d documents", len(seq), n), order)
+			}
+			for i := 1; i < len(seq); i++ {
+				a, b := math.Float64frombits(seq[i-1]), math.Float64frombits(seq[i])
+				if desc {
+					a, b = b, a
+				}
+				w.OracleEval(1)
+				if ieeeLess(b, a) {
+					w.OracleFail("sort-order", fmt.Sprintf("numeric sort (%s) returns %#x before %#x", order, seq[i-1], seq[i]), []uint64{seq[i-1], seq[i]})
+				}
+			}
+			allBits := make([]uint64, n)
+			for i, v := range vals {
+				allBits[i] = math.Float64bits(v)
+			}
+			w.Add(fmt.Sprintf("CSort %s %s %s", cq.B(desc), cq.U64List(allBits), cq.U64List(seq)), "sort", true,
+				map[string]interface{}{"order": order, "docs": n})
+		}
 		nq := 1500
 		emitEvery := 30
 		for q := 0; q < nq; q++ {
@@ -655,8 +712,11 @@ func numericE2E(o Opts, rng *rand.Rand, w *cq.Writer, floats []float64) error {
 
 func sortedTerms(f *bluge.TermField) [][]byte {
 	var out [][]byte
+	// each term as often as the analyzer produced it (the model's token list has multiplicities)
 	for _, tf := range f.AnalyzedTokenFrequencies() {
-		out = append(out, append([]byte{}, tf.TermVal...))
+		for k := 0; k < tf.Frequency(); k++ {
+			out = append(out, append([]byte{}, tf.TermVal...))
+		}
 	}
 	sort.Slice(out, func(i, j int) bool { return bytes.Compare(out[i], out[j]) < 0 })
 	return out
